@@ -11,7 +11,9 @@ from contracts.core_tables import mk_VT, mk_PT, key_choices, kname, LABELS
 DEN = 'pyPRISM.core.Density:Density'
 DIA = 'pyPRISM.core.Diameter:Diameter'
 SP = 'pyPRISM.core.Space:Space'
-SIZES = (1, 2, 3)
+import os as _os
+_THOROUGH = _os.environ.get('PYVC_TIER') == 'thorough'      # the thorough tier adds rank / type-list size 4
+SIZES = (1, 2, 3, 4) if _THOROUGH else (1, 2, 3)
 
 
 # --------------------------------------------------------------------------- invariants (= the property statement)
@@ -136,7 +138,7 @@ def Density_init(self, types):
 
 @cases(Density_init)
 def _den_init_cases():
-    for n in SIZES + (4,):
+    for n in tuple(sorted(set(SIZES + (4,)))):
         def build(f, n=n):
             return dict(self=f.obj(DEN), types=list(LABELS[:n]))
         yield 'types=%d' % n, build, {'post': lambda f, args, res: inv_density(f, args['self'])}
@@ -225,7 +227,7 @@ def Diameter_init(self, types):
 
 @cases(Diameter_init)
 def _dia_init_cases():
-    for n in SIZES + (4,):
+    for n in tuple(sorted(set(SIZES + (4,)))):
         def build(f, n=n):
             return dict(self=f.obj(DIA), types=list(LABELS[:n]))
         yield 'types=%d' % n, build, {'post': lambda f, args, res: inv_diameter(f, args['self'])}
